@@ -51,8 +51,16 @@ Dangling = list[tuple[Node, str]]
 
 
 class CFG:
-    def __init__(self, func: ast.FunctionDef | ast.AsyncFunctionDef | ast.Module):
+    def __init__(
+        self,
+        func: ast.FunctionDef | ast.AsyncFunctionDef | ast.Module,
+        all_raise: bool = False,
+    ):
+        """``all_raise``: every statement containing a call/yield/await gets an implicit
+        exception edge, not only statements inside a ``try`` (needed for rules about
+        exceptional exits, e.g. generator-based context managers)."""
         self.func = func
+        self.all_raise = all_raise
         self.nodes: list[Node] = []
         self.succ: dict[Node, list[tuple[Node, str, str]]] = {}  # (dst, kind, label)
         self.pred: dict[Node, list[tuple[Node, str, str]]] = {}
@@ -141,6 +149,8 @@ class CFG:
         n = self._new(kind, st)
         self._connect(preds, n)
         if self._tries:
+            self._implicit_exc(n)
+        elif self.all_raise and _may_raise(st):
             self._implicit_exc(n)
         return n
 
@@ -500,6 +510,24 @@ class CFG:
         if many:
             hi = INF
         return (lo, hi)
+
+
+def _may_raise(st: ast.AST) -> bool:
+    if isinstance(st, (ast.If, ast.While)):
+        probe: list[ast.AST] = [st.test]
+    elif isinstance(st, (ast.For, ast.AsyncFor)):
+        probe = [st.iter]
+    elif isinstance(st, (ast.With, ast.AsyncWith)):
+        probe = [i.context_expr for i in st.items]
+    elif isinstance(st, (ast.FunctionDef, ast.AsyncFunctionDef, ast.ClassDef, ast.Try, ast.Match)):
+        return False
+    else:
+        probe = [st]
+    for p in probe:
+        for n in ast.walk(p):
+            if isinstance(n, (ast.Call, ast.Yield, ast.YieldFrom, ast.Await, ast.Subscript, ast.Attribute, ast.BinOp)):
+                return True
+    return False
 
 
 def _catches_all(h: ast.ExceptHandler) -> bool:
